@@ -17,7 +17,7 @@ def shadow_codecs(sh):
     import minecraft.networking.packets.packet_buffer as pb
     sh.install(basic, struct=models.StructModel(), ord=models.sym_ord,
                int=models.sym_int, len=models.sym_len, round=models.sym_round,
-               str=models.sym_str)
+               str=models.sym_str, uuid=models.UuidModel)
     sh.install(pb, BytesIO=models.RopeIO)
 
 
